@@ -12,6 +12,8 @@ that both produce an answer.
 -/
 import ClvmProofs.Lemmas.Interp.Repr
 import ClvmProofs.Lemmas.Interp.MachineBase
+import ClvmModel.Interp.CryptoOps
+import ClvmProofs.Lemmas.TreeHash
 
 namespace Clvm.Interp
 open Clvm Clvm.Alloc
@@ -939,5 +941,67 @@ def EvalRetagStatement : Prop :=
         runProgram cfg (chiaDialect cfg extra flags0) fuel c0 program' env' maxCost = some r' →
         (∀ e, r ≠ .error e ∨ e ≠ .OutOfMemory) → (∀ e, r' ≠ .error e ∨ e ≠ .OutOfMemory) →
         ResEraseEq false r r'
+
+/-! ### the cryptographic operators (`cryptoExtra`) -/
+
+/-- a lifted tree-level operator only sees the erased argument list -/
+theorem liftCrypto_repr (f : Crypto.OpFn) : OpRepr true (liftCrypto f) := opRepr_of_eq fun flags m a a' c h => by
+  unfold liftCrypto; rw [h.2.2]
+
+theorem toNTree_valid {v : Val} (h : v.wf = true) : (toNTree v).Valid := by
+  induction v with
+  | atom b t =>
+    cases t
+    · trivial
+    · have := (wf_inline h).lt
+      show beNat b < 2 ^ 31
+      omega
+  | pair l r ihl ihr =>
+    simp only [Val.wf, Bool.and_eq_true] at h
+    exact ⟨ihl h.1, ihr h.2⟩
+
+theorem toNTree_erase {v : Val} (h : v.wf = true) : (toNTree v).erase = v.erase := by
+  induction v with
+  | atom b t =>
+    cases t
+    · rfl
+    · have hb := wf_inline h
+      show Tree.atom (smallBytes (beNat b)) = Tree.atom b
+      rw [smallBytes_enc _ (by have := hb.lt; omega), ← hb.enc]
+  | pair l r ihl ihr =>
+    simp only [Val.wf, Bool.and_eq_true] at h
+    simp only [toNTree, TreeHash.NTree.erase, Val.erase, ihl h.1, ihr h.2]
+
+theorem treeHashCosted_req (nm : Bool) (R : Nat) {v v' : Val} (h : Req v v') :
+    TreeHash.treeHashCosted nm R (toNTree v) = TreeHash.treeHashCosted nm R (toNTree v') := by
+  rw [TreeHash.treeHashCosted_eq _ _ _ (toNTree_valid h.1), TreeHash.treeHashCosted_eq _ _ _ (toNTree_valid h.2.1),
+    toNTree_erase h.1, toNTree_erase h.2.1, h.2.2]
+
+theorem opSha256Tree_repr : OpRepr true opSha256Tree := opRepr_of_eq fun flags m a a' c h => by
+  have key : TreeHash.opSha256Tree (newModel flags) m (toNTree a) =
+      TreeHash.opSha256Tree (newModel flags) m (toNTree a') := by
+    cases h.cases with
+    | atom b t t' _ _ => cases t <;> cases t' <;> rfl
+    | pair l r l' r' hl hr =>
+      cases hr.cases with
+      | pair _ _ _ _ _ _ => rfl
+      | atom b t t' _ _ =>
+        have e : ∀ (x : Val) (t : Bool), TreeHash.opSha256Tree (newModel flags) m (toNTree (.pair x (.atom b t))) =
+            TreeHash.treeHashCosted (newModel flags) m (toNTree x) := by
+          intro x t; cases t <;> rfl
+        rw [e, e, treeHashCosted_req _ _ hl]
+  unfold opSha256Tree; rw [key]
+
+/-- every operator of `cryptoExtra` is representation independent -/
+theorem cryptoExtra_repr (name : String) (f : OpFn) (h : cryptoExtra name = some f) : OpRepr true f := by
+  unfold cryptoExtra at h
+  split at h
+  · cases h
+  · split at h
+    · cases h; exact opSha256Tree_repr
+    · cases hc : Crypto.opByName name with
+      | none => rw [hc] at h; cases h
+      | some g => rw [hc] at h; cases h; exact liftCrypto_repr g
+
 
 end Clvm.Interp
